@@ -212,6 +212,29 @@ func (r *Run) checkFn(ld *Loaded, key string, cases []stepCase, comps map[string
 			final[o.Name] = o
 		}
 	}
+	// An undecided case (solver limit) may still have a cheap counterexample:
+	// the same obligation with the program's opcode at PC pinned to NOP is a
+	// restriction of it, so a model of the restriction is a model of the case.
+	{
+		var hunt []stepCase
+		for _, sc := range cases {
+			if o := final[key+"/"+sc.name]; o != nil && o.Status == "undecided" && len(hunt) < 16 {
+				base := sc
+				hunt = append(hunt, stepCase{name: sc.name, onlySafety: sc.onlySafety, enc: sc.enc, spec: func(x *Exec, st *State, a []Value) {
+					base.spec(x, st, a)
+					x.specialise(st, a[0].(*PtrV), Encoding{Op: 0x00})
+				}})
+			}
+		}
+		if len(hunt) > 0 {
+			for _, o := range run(true, hunt) {
+				if o.Status == "failed" {
+					o.Note = "counterexample found with the opcode at PC restricted to NOP"
+					final[o.Name] = o
+				}
+			}
+		}
+	}
 	// known findings: a mode-0 obligation is discharged either against the
 	// as-implemented semantics (the finding is present exactly as recorded) or
 	// against the statement's semantics (the finding has been repaired)
@@ -305,10 +328,17 @@ func init() {
 	checks["C07"] = func(ld *Loaded, r *Run) {
 		r.verifyHelpers(ld, nil)
 		comps := allComps()
+		comps["Intr"] = true
+		// the refused case (a request raised under DI stays pending while the
+		// program's instruction executes) uses the contract of executeOne
+		only := r.only
+		r.only = ""
+		r.checkArms(ld, allEncodings(), nil, true, true)
+		r.only = only
 		var cs []stepCase
 		for _, sc := range stepCases(true) {
 			switch {
-			case sc.name == "NMI", sc.name == "IM1", sc.name == "IM2":
+			case sc.name == "NMI", sc.name == "IM1", sc.name == "IM2", sc.name == "refused":
 				cs = append(cs, sc)
 			case strings.HasPrefix(sc.name, "IM0["):
 				// quick tier: the unprefixed table (RST, CALL, JP, ... the instructions a
@@ -322,9 +352,6 @@ func init() {
 			r.Notes["quick_tier_subset:Step/IM0"] = "mode-0 acceptance for the 252 unprefixed supplied instructions (all 1786 in the thorough tier and in C06)"
 		}
 		r.checkFn(ld, "z80.(*CPU).Step", cs, comps, false, false, "cpu.Step()")
-		pcOnly := set("PC", "HALT")
-		r.checkArms(ld, filterEnc(func(e Encoding) bool { return famBlock(e) || e.Table == "" && e.Op == 0x76 }),
-			func(Encoding) map[string]bool { return pcOnly }, false, false)
 		r.checkLemmas(ld, "C07")
 		r.Assumptions["C07: the step from the per-boundary obligations (T1-T4) to whole interrupted runs is induction over the program trace (meta-level, not machine-checked)"] = true
 	}
